@@ -34,14 +34,24 @@ def _call_name(node):
     return (None, None)
 
 
+STDLIB_DRAWS = DRAWS | {"gauss", "randrange", "choices", "getrandbits", "triangular", "betavariate", "expovariate", "normalvariate"}
+
+
 def is_global_draw(node):
+    """a draw from numpy's global generator or from the stdlib `random` module's global generator"""
     b, n = _call_name(node)
-    return b in ("np.random", "numpy.random") and n in DRAWS
+    return (b in ("np.random", "numpy.random") and n in DRAWS) or (b == "random" and n in STDLIB_DRAWS)
 
 
 def is_seed(node):
     b, n = _call_name(node)
-    return b in ("np.random", "numpy.random") and n == "seed"
+    return (b in ("np.random", "numpy.random") and n == "seed") or (b == "random" and n == "seed")
+
+
+def is_generator_ctor(node):
+    """np.random.default_rng(...) / RandomState(...) / Generator(...): a private generator; deterministic only with a literal seed"""
+    b, n = _call_name(node)
+    return b in ("np.random", "numpy.random") and n in ("default_rng", "RandomState", "SeedSequence", "Generator", "PCG64", "MT19937")
 
 
 def literal_seed(node):
@@ -112,11 +122,25 @@ def calls_with_paths(fn):
 
 
 def dominated_by_literal_seed(call, chain):
-    """an earlier top-level statement `np.random.seed(<int>)` in the same block or an enclosing block on the path"""
+    """an earlier top-level statement `np.random.seed(<int>)` (resp. `random.seed(<int>)` for a stdlib draw) in the same block or an
+    enclosing block on the path"""
+    family = "random" if _call_name(call)[0] == "random" else "numpy"
     for block, idx in chain:
         for st in block[:idx]:
             if isinstance(st, ast.Expr) and isinstance(st.value, ast.Call) and is_seed(st.value) and literal_seed(st.value):
-                return st.value.args[0].value
+                if ("random" if _call_name(st.value)[0] == "random" else "numpy") == family:
+                    return st.value.args[0].value
+    return None
+
+
+def dominated_by_some_seed(call, chain):
+    """like dominated_by_literal_seed, but any argument: returns the source text of the dominating seed's argument or None"""
+    family = "random" if _call_name(call)[0] == "random" else "numpy"
+    for block, idx in chain:
+        for st in block[:idx]:
+            if isinstance(st, ast.Expr) and isinstance(st.value, ast.Call) and is_seed(st.value) and (st.value.args or st.value.keywords):
+                if ("random" if _call_name(st.value)[0] == "random" else "numpy") == family:
+                    return ast.unparse(st.value)
     return None
 
 
@@ -140,7 +164,7 @@ def rng_obligations(loader: Loader):
             for call, chain in calls:
                 b, n = _call_name(call)
                 consuming = is_global_draw(call) or (b is None and (None, n) in drawers)
-                if consuming and dominated_by_literal_seed(call, chain) is None:
+                if consuming and dominated_by_some_seed(call, chain) is None:
                     if cls is None:
                         drawers.add((None, name))
                         changed = True
@@ -150,10 +174,21 @@ def rng_obligations(loader: Loader):
         for call, chain in calls:
             b, n = _call_name(call)
             where = f"{rel}::{cls + '.' if cls else ''}{name}@{call.lineno}"
+            # a seed that is not an integer literal may still be a deterministic function of the grid specification (then the
+            # property holds): that is not decided here -- "unknown", the bounded stage decides.  No seed at all (OS entropy) is refuted.
+            def seed_verdict(c):
+                if literal_seed(c):
+                    return "proved"
+                return "unknown" if (c.args or c.keywords) else "refuted"
             if is_seed(call):
                 obligations.append({"name": f"effect:seed-is-an-integer-literal:{where}", "kind": "effect", "function": where,
-                                    "result": "proved" if literal_seed(call) else "refuted",
-                                    "detail": ast.unparse(call)})
+                                    "result": seed_verdict(call), "detail": ast.unparse(call),
+                                    "reason": "seed expression is not an integer literal: determinism depends on what it evaluates to"})
+                continue
+            if is_generator_ctor(call):
+                obligations.append({"name": f"effect:private-generator-has-a-literal-seed:{where}", "kind": "effect", "function": where,
+                                    "result": seed_verdict(call), "detail": ast.unparse(call),
+                                    "reason": "seed expression is not an integer literal: determinism depends on what it evaluates to"})
                 continue
             consuming = is_global_draw(call) or (b is None and (None, n) in drawers)
             if not consuming:
@@ -162,8 +197,12 @@ def rng_obligations(loader: Loader):
                 continue          # a helper that draws from the stream it is given: its callers carry the obligation
             s = dominated_by_literal_seed(call, chain)
             ok = s is not None
+            other = None if ok else dominated_by_some_seed(call, chain)
             rec = {"name": f"effect:draw-dominated-by-literal-seed:{where}", "kind": "effect", "function": where,
-                   "result": "proved" if ok else "refuted", "detail": f"{ast.unparse(call)} after np.random.seed({s})" if ok else ast.unparse(call)}
+                   "result": "proved" if ok else ("unknown" if other else "refuted"),
+                   "detail": f"{ast.unparse(call)} after np.random.seed({s})" if ok else (f"{ast.unparse(call)} after {other}" if other else ast.unparse(call))}
+            if other:
+                rec["reason"] = "dominated by a seed whose argument is not an integer literal: determinism depends on what it evaluates to"
             if not ok and (rel, cls, name) in ALLOW:
                 rec["result"] = "proved"
                 rec["kind"] = "effect-allowed"
